@@ -48,6 +48,8 @@ def gen_float(rng):
 
 def gen_str(rng, sep, esc):
     alpha = ['a', 'b', ' ', '"', esc, sep, sep[0], 'é', '0', 'T', ',', ';', '\t', '|', "'", esc + '"', '""', esc + esc,
+             # the escape character in front of letters that are escape sequences in other formats (a literal two-character text here)
+             esc + 'n', esc + 't', esc + 'r', esc + '0', esc + 'x41', esc + 'u00e9', 'n', 'r', esc + esc + 'n',
              # line boundaries of str.splitlines() that are not '\n': ordinary field content for line framing
              '\x0c', '\x0b', '\x1c', '\x1d', '\x1e', '\x85', '\u2028', '\u2029']
     n = rng.choice([0, 0, 1, 2, 3, 6, 12])
